@@ -250,9 +250,15 @@ PROBE_ALPHA = ['a', 'b', 'Z', '0', '-', ' ', ' ', '\t', "'", '"', '\\', 'Ã©', 'â
 def probe_cases(draw):
     args = draw(st.lists(st.text(alphabet=PROBE_ALPHA, min_size=1, max_size=5), min_size=0, max_size=4))
     form = draw(st.sampled_from(['string', 'string', 'list', 'popen', 'popen-string', 'bare', 'run']))
-    enc = draw(st.sampled_from([None, None, 'utf-8', 'latin-1']))
+    enc = draw(st.sampled_from([None, None, 'utf-8', 'latin-1', 'iso2022_jp']))
     if enc == 'latin-1':
         args = [a.replace('â‚¬', 'Ã©') for a in args]
+    if enc == 'iso2022_jp':
+        # a codec with shift states: every argument is a text of its own (it starts and ends in the ASCII state)
+        if form in ('popen', 'popen-string', 'bare'):
+            enc = None
+        else:
+            args = [a.replace('â‚¬', '\u3042').replace('Ã©', '\u3044').replace('\xa0', '\u3042') for a in args]
     env = None
     if draw(st.booleans()):
         env = {draw(st.sampled_from(['A', 'VAR_X', 'LANG', 'Ã©'])): draw(st.text(alphabet=PROBE_ALPHA, max_size=6))
